@@ -1,5 +1,6 @@
 (* C17 — content helpers are exact.  Statements only; proofs are in Proofs/. *)
 From AF Require Import Lib.Bytes Gen.Consts Model.Search Proofs.SearchProof.
+From AF Require Import Model.SearchChunked Proofs.SearchChunkedProof.
 
 (* FileContainsBytes / FileContainsAnyBytes: for EVERY content and EVERY list of needles the
    windowed search of util.go (window factor and half divisor read from the source) returns
@@ -20,6 +21,89 @@ Print Assumptions C17_contains_exact_any_factor.
 Example C17_ex1 : reader_contains_any [97;98;99;100;101;102;103;104;105;88]%N [[88;103]%N] = false.
 Proof. vm_compute. reflexivity. Qed.
 Example C17_ex2 : reader_contains_any [97;98;99;100;101;102;103;104;105;88]%N [[105;88]%N; []] = true.
+Proof. vm_compute. reflexivity. Qed.
+
+(* ------------------------------------------------------------------------------------ *)
+(* The same for EVERY io.Reader behaviour (Model/SearchChunked.v).  The reader is the content plus
+   a chunking oracle [calls]: entry k says how many bytes the k-th call of Read may deliver at most
+   (any number >= 1; 0 = the call returns (0, nil)) and whether io.EOF comes together with the last
+   bytes or on the next call; calls beyond the list fill their buffer.  io.ReadAtLeast and
+   readerContainsAny are transcribed on top of that.  For every content, every needle list and every
+   oracle the answer is bytes.Contains on the whole content.  `Some`: the fuel
+   (length content + length calls + 2, for the rounds and for the Read calls of one ReadAtLeast) is
+   never exhausted — every Read delivers a byte, uses up an oracle entry, or reports io.EOF.
+   Excluded: Read errors other than io.EOF; a reader that answers (0, nil) for ever (io.ReadAtLeast
+   then does not return). *)
+Theorem C17_contains_exact_chunked : forall (content : bytes) (calls : list rcall) (needles : list bytes),
+  reader_contains_any_chunked content calls needles = Some (contains_spec content needles).
+Proof. exact reader_contains_any_chunked_exact. Qed.
+Print Assumptions C17_contains_exact_chunked.
+
+Theorem C17_contains_exact_chunked_any_factor : forall factor content calls needles,
+  2 <= factor -> Nat.even factor = true ->
+  go_contains_any_chunked factor 2 content calls needles = Some (contains_spec content needles).
+Proof. exact go_contains_any_chunked_exact. Qed.
+Print Assumptions C17_contains_exact_chunked_any_factor.
+
+(* The model of Model/Search.v (used by C17_contains_exact, the extracted runner and the
+   correspondence check) is the instance "every Read fills its buffer" of the chunked model: the
+   empty oracle, or any oracle whose entries are (c, false) with c >= bufflen.  Proved by a
+   round-by-round simulation for EVERY window factor and half divisor with 1 <= hdiv <= factor
+   (halflen >= the longest needle), so it does not depend on the exactness of either model. *)
+Theorem C17_full_read_is_instance : forall content needles,
+  reader_contains_any_chunked content [] needles = Some (reader_contains_any content needles).
+Proof. exact reader_contains_any_is_fill_instance. Qed.
+Print Assumptions C17_full_read_is_instance.
+
+Theorem C17_full_read_is_instance_any_factor : forall factor hdiv content calls needles,
+  1 <= hdiv -> hdiv <= factor ->
+  Forall (fills (factor * largest needles)) calls ->
+  go_contains_any_chunked factor hdiv content calls needles = Some (go_contains_any factor hdiv content needles).
+Proof. exact chunked_fill_is_full. Qed.
+Print Assumptions C17_full_read_is_instance_any_factor.
+
+(* ... and with the source's constants (even factor, halflen = bufflen/2) every other oracle computes
+   the same, round by round: readerContainsAny only ever calls io.ReadAtLeast with len(buf) = min. *)
+Theorem C17_chunking_irrelevant : forall factor content calls needles,
+  2 <= factor -> Nat.even factor = true ->
+  go_contains_any_chunked factor 2 content calls needles = Some (go_contains_any factor 2 content needles).
+Proof. exact chunked_eq_full. Qed.
+Print Assumptions C17_chunking_irrelevant.
+
+(* what io.ReadAtLeast guarantees for an arbitrary reader (the lemma the above rests on): the bytes
+   placed are a prefix of what was left, at most len(buf), at least min unless the input ended *)
+Theorem C17_read_at_least_spec : forall fuel rd buf n m,
+  n <= length buf -> m <= length buf -> measure rd < fuel ->
+  exists data eof rd',
+    ral_loop fuel rd buf n m
+      = Some (firstn n buf ++ copy_into (skipn n buf) data, n + length data, eof, rd') /\
+    r_rest rd = data ++ r_rest rd' /\
+    n + length data <= length buf /\
+    (eof = false -> m <= n + length data) /\
+    (eof = true -> r_rest rd' = []) /\
+    (exists used, r_calls rd = used ++ r_calls rd').
+Proof. exact ral_loop_spec. Qed.
+Print Assumptions C17_read_at_least_spec.
+
+(* the chunked model computes; 1-byte reads, a (0, nil) read, io.EOF together with the last byte *)
+Example C17_ex_chunked1 :
+  reader_contains_any_chunked_tr [97;98;99;100;101;102;103;104;105;88]%N
+      [(1, false); (0, false); (3, false); (1, false); (2, true); (1, false); (1, false); (5, true)]%nat [[105;88]%N; []]
+  = Some (true, 8, 0)%nat.
+Proof. vm_compute. reflexivity. Qed.
+Example C17_ex_chunked2 :     (* stale bytes of the previous window are not searched, whatever the split *)
+  reader_contains_any_chunked [97;98;99;100;101;102;103;104;105;88]%N [(3, false); (1, true); (2, false)]%nat [[88;103]%N]
+  = Some false.
+Proof. vm_compute. reflexivity. Qed.
+(* The oracle does matter as soon as len(buf) > min.  With a window factor of 3 (not the source's 4)
+   and a needle of 3 bytes: bufflen 9, halflen 4, the second slice has 5 bytes.  A reader that fills
+   it loses the byte at offset 8 in the following shift and misses "XYZ" at offset 7; a reader that
+   hands out 4 bytes per call does not.  Hence "even factor" in the theorems. *)
+Example C17_ex_odd_factor_chunking_matters :
+  let content := [97;97;97;97;97;97;97;88;89;90;97;97;97;97]%N in
+  (go_contains_any_chunked 3 2 content [] [[88;89;90]%N],
+   go_contains_any_chunked 3 2 content (repeat (4, false)%nat 6) [[88;89;90]%N],
+   contains_spec content [[88;89;90]%N]) = (Some false, Some true, true).
 Proof. vm_compute. reflexivity. Qed.
 
 (* ==================================================================================== *)
